@@ -51,7 +51,9 @@ from lib.core import SRC, VERIF
 
 LEVEL = "proof"
 DRIVERS = ["syn", "flow"]
-COQ_TARGETS = []
+# the lexer theorems of C20 are about Lex/Lexer.v, whose hand scanners were written against the regex texts of
+# lexer.TOKEN_PATTERNS pinned in Lex/Pins_Lexer.v: a changed token pattern must break a C20 obligation as well
+COQ_TARGETS = ["theories/Lex/Pins_Lexer.vo"]
 
 HANG_S = float(os.environ.get("C20_HANG_S", "5"))
 NWORKERS = int(os.environ.get("C20_WORKERS", "16"))
@@ -301,6 +303,7 @@ def _fam_nested_blocks(n):
     return "\n".join("  " * i + "B%d:" % i for i in range(n)) + "\n" + "  " * n + "X::1\n"
 
 
+_TAIL_WORDS_F = "closing quote forgotten "
 FAMILIES = {
     "long_string": lambda k: 'K::"' + "a" * (20000 * k) + '"',
     "long_words": lambda k: "K::" + " ".join("w%d" % i for i in range(300 * k)),
@@ -316,6 +319,10 @@ FAMILIES = {
     "fences_with_tabs": lambda k: "\n".join("K%d::\n```\n" % i + "\t" * 16 + "\n```" for i in range(80 * k)),
     "nested_blocks": lambda k: _fam_nested_blocks(6 * k),      # depth 6..96 (quick) / 6*64 is beyond the cap: thorough caps k at 16
     "long_unterminated_string": lambda k: 'K::"' + "a" * (20000 * k),
+    # unterminated quote + long tail of ordinary words after a valid prefix (round-2 seed C20-a); safe to time in-process
+    # because hang_probes() has already run the same shape up to 25600 characters in killable children
+    "unterminated_quote_tail": lambda k: '===DOC===\nMETA:\n  TYPE::NOTE\nTITLE::"fine"\nNOTE::"' + _TAIL_WORDS_F * (60 * k),
+    "unterminated_triple_quote_tail": lambda k: '===DOC===\nTITLE::"""fine"""\nNOTE::"""a "b" ' + _TAIL_WORDS_F * (60 * k),
     "long_meta": lambda k: "META:\n" + "\n".join("  K%d::%d" % (i, i) for i in range(100 * k)),
 }
 NO_TIMING_BEYOND = {"nested_blocks": 16}
@@ -438,6 +445,144 @@ def _guarded(fn, *a, **kw):
 
 
 ENTRY = ("tokenize", "parse", "parse_with_warnings", "parse_meta_only")
+
+# --------------------------------------------------------------------------------------------------
+# hang probes in KILLABLE child processes (run before everything else)
+#   A regex that backtracks exponentially never returns to the interpreter loop: SIGALRM handlers do not run, so the
+#   in-worker setitimer guard is blind to it and only the parent's 60 s watchdog would notice -- once per input.
+#   Shapes known to provoke catastrophic backtracking in a token pattern are therefore tried first, one forked child
+#   per call, killed after PROBE_CAP_S.  Ladders are ascending and a shape is abandoned at its first hang (the failing
+#   input is the shortest one found).  If any probe hangs the remaining search is skipped (every generator would run
+#   into the same hang, 60 s at a time): the check reports the failing inputs and exits 1.
+# --------------------------------------------------------------------------------------------------
+PROBE_CAP_S = float(os.environ.get("C20_PROBE_CAP_S", "2"))
+_TAIL_WORDS = "closing quote forgotten "
+PROBE_TAILS = [12, 16, 20, 24, 28, 32, 40, 60, 80, 120, 200, 1600, 6400, 25600]
+PROBE_SHAPES = {
+    # unterminated quote + long tail of characters that are neither a quote nor a backslash, up to the end of the text
+    "dq-top": lambda t: 'NOTE::"' + t,
+    "dq-after-valid-prefix": lambda t: '===DOC===\nMETA:\n  TYPE::NOTE\nTITLE::"fine"\nNOTE::"' + t,
+    "dq-in-meta": lambda t: '===D===\nMETA:\n  TYPE::"' + t,
+    "dq-in-list": lambda t: 'K::[a,"b",[c,"' + t,
+    "dq-in-inline-map": lambda t: 'K::[k::"' + t,
+    "dq-tail-spans-lines": lambda t: 'K::"' + t[: len(t) // 2] + "\nM::1\n  " + t[len(t) // 2:] + "\n===END===\n",
+    "dq-after-escapes": lambda t: 'K::"a\\n\\"b' + t,
+    "dq-unicode-tail": lambda t: 'K::"' + "".join("é中 →x-"[i % 6] for i in range(len(t))),
+    "tq-top": lambda t: 'NOTE::"""' + t,
+    "tq-after-valid-prefix": lambda t: '===DOC===\nMETA:\n  TYPE::NOTE\nTITLE::"""fine"""\nNOTE::"""' + t,
+    "tq-with-inner-quotes": lambda t: 'K::"""a "b" c ' + t,
+    "tq-in-list": lambda t: 'K::[a,"""' + t,
+    # same idea for the other delimited tokens (cheap; the ladder shows they are linear today)
+    "unclosed-angle": lambda t: "K::NAME<" + t.replace(" ", "_"),
+    "unclosed-comment-like": lambda t: "K::v //" + t,
+    "long-bare-run": lambda t: "K::" + t.replace(" ", "-"),
+}
+PROBE_FNS = ("tokenize", "parse", "parse_with_warnings", "parse_meta_only")
+PROBE_TOOL_LEVELS = (32, 200)          # tails at which the four tools are probed as well
+
+
+def _probe_child(conn, fn, text):
+    try:
+        _w_setup()
+        signal.setitimer(signal.ITIMER_REAL, 0)
+        t0 = time.perf_counter()
+        if fn in PROBE_FNS:
+            lx, ps = _W["lx"], _W["ps"]
+            try:
+                _entry(fn)(text)
+                out = "returned"
+            except (lx.LexerError, ps.ParserError) as e:
+                out = "own:" + type(e).__name__
+            except BaseException as e:  # noqa
+                out = "FOREIGN:" + type(e).__name__
+        else:
+            import asyncio
+            cls = _W["tools"][fn]
+            d = tempfile.mkdtemp(prefix="c20p")
+            try:
+                kw = {"octave_validate": {"content": text, "schema": "META"}, "octave_eject": {"content": text, "schema": "X", "format": "json"},
+                      "octave_compile_grammar": {"content": text}, "octave_write": {"target_path": d + "/f.oct.md", "content": text, "lenient": True}}[fn]
+                try:
+                    r = asyncio.run(cls().execute(**kw))
+                    json.dumps(r)
+                    out = "envelope" if isinstance(r, dict) and ("status" in r or "validation_status" in r) else "BAD-ENVELOPE"
+                except BaseException as e:  # noqa
+                    out = "FOREIGN:" + type(e).__name__
+            finally:
+                shutil.rmtree(d, ignore_errors=True)
+        conn.send((out, time.perf_counter() - t0))
+    except BaseException as e:  # noqa
+        try:
+            conn.send(("CHILD-ERROR:" + type(e).__name__, 0.0))
+        except Exception:  # noqa
+            pass
+    finally:
+        conn.close()
+        os._exit(0)
+
+
+def probe_batch(items, cap=None):
+    """items: [(key, fn, text)] -> {key: (outcome | 'HANG', seconds)}; every call in its own forked child, started in
+    groups of 32, each child killed `cap` seconds after its start."""
+    import multiprocessing as mp
+    cap = PROBE_CAP_S if cap is None else cap
+    ctxm = mp.get_context("fork")
+    out = {}
+    for i in range(0, len(items), 32):
+        live = []
+        for key, fn, text in items[i:i + 32]:
+            a, b = ctxm.Pipe(duplex=False)
+            p = ctxm.Process(target=_probe_child, args=(b, fn, text), daemon=True)
+            p.start()
+            b.close()
+            live.append((key, p, a, time.time()))
+        for key, p, a, t0 in live:
+            left = max(0.0, cap - (time.time() - t0))
+            res = None
+            if a.poll(left):
+                try:
+                    res = a.recv()
+                except EOFError:
+                    res = ("CHILD-DIED", 0.0)
+            if res is None:
+                res = ("HANG", cap)
+            if p.is_alive():
+                p.kill()
+            p.join(2)
+            a.close()
+            out[key] = res
+    return out
+
+
+def hang_probes(ctx):
+    """-> (failure cases, table).  Ascending ladder per shape; a shape stops at its first hang / foreign exception."""
+    fails, table = [], {}
+    alive = dict.fromkeys(PROBE_SHAPES, True)
+    for n in PROBE_TAILS:
+        tail = (_TAIL_WORDS * (n // len(_TAIL_WORDS) + 1))[:n]
+        fns = PROBE_FNS + (tuple(_W["tools"]) if n in PROBE_TOOL_LEVELS else ())
+        items = [((sh, fn), fn, PROBE_SHAPES[sh](tail)) for sh in PROBE_SHAPES if alive[sh] for fn in fns]
+        res = probe_batch(items)
+        ctx.count(len(items))
+        for (sh, fn), (outc, secs) in res.items():
+            table.setdefault(sh, {}).setdefault(fn, []).append([n, outc, round(secs, 4)])
+            ctx.hist("hang_probe_outcome", outc.split(":")[0])
+            bad = outc == "HANG" or outc.startswith(("FOREIGN", "BAD-ENVELOPE", "CHILD"))
+            if bad and alive[sh]:
+                alive[sh] = False
+                text = PROBE_SHAPES[sh](tail)
+                prev = table[sh][fn][:-1]
+                if outc == "HANG":
+                    q = max(text.rfind('"'), text.rfind("<"), text.rfind("//"))
+                    what = ("hang: %s did not return within %g s on a text of %d characters (shape %s, ladder step %d: %d characters follow "
+                            "the last opening quote / delimiter up to the end of the text; times at the shorter steps: %s)"
+                            % (fn, PROBE_CAP_S, len(text), sh, n, len(text) - q - 1,
+                               ", ".join("%d:%.3fs" % (a_, c_) for a_, _, c_ in prev[-4:]) or "none shorter"))
+                else:
+                    what = "%s on probe shape %s (tail %d): %s" % (fn, sh, n, outc)
+                fails.append(({"kind": "hang-probe", "fn": fn, "shape": sh, "tail": n, "text": text, "codepoints": [ord(c) for c in text[:400]],
+                               "cap_s": PROBE_CAP_S, "outcome": outc}, what))
+    return fails, table
 
 
 def _entry(name):
@@ -638,6 +783,37 @@ def tool_one(tool, args, setup=None):
         return {"outcome": "SKIPPED-after-hang", "failure": None}
     real, d = _prep_args(args, setup)
     try:
+        if setup and setup.get("first") is not None:
+            # TWO-STEP SEQUENCE on one path: `first` is an ordinary earlier call of the same tool on the same target
+            # (it creates the state on disk the second call meets).  It is subject to the property like any call.
+            first = {k: (v.replace("$TMP", d) if isinstance(v, str) and k in ("target_path", "file_path") else v)
+                     for k, v in setup["first"].items()}
+            _W["in_call"] = True
+            r1 = _guarded(lambda: asyncio.run(cls().execute(**first)))
+            _W["in_call"] = False
+            if r1[0] == "hang":
+                return {"outcome": "HANG(first call)", "failure": {"what": f"hang: first call of a two-step {tool} sequence did not return within {HANG_S:g} s",
+                                                                    "exc": "hang", "finding": None}}
+            if r1[0] in ("own", "foreign"):
+                e = r1[1]
+                fr = r1[2] if r1[0] == "foreign" else _frames(e.__traceback__)
+                return {"outcome": "RAISED(first call):" + type(e).__name__,
+                        "failure": {"what": f"{tool} raised {type(e).__name__} (first call of a two-step sequence)", "exc": type(e).__name__,
+                                    "msg": str(e)[:200], "mro": [c.__name__ for c in type(e).__mro__], "frames": fr[-5:],
+                                    "escape_site": _escape_site(cls, fr), "finding": _classify_tool(tool, first, e, fr, None)}}
+            e1 = r1[1]
+            if not isinstance(e1, dict) or not ("status" in e1 or "validation_status" in e1):
+                return {"outcome": "BAD-ENVELOPE(first call)", "failure": {"what": f"{tool} (first call of a sequence) returned no status envelope",
+                                                                          "got": repr(e1)[:200], "finding": None}}
+            try:
+                json.dumps(e1, indent=2)
+            except BaseException as e:  # noqa
+                return {"outcome": "NOT-JSON(first call)", "failure": {"what": f"{tool} envelope of the first call is not JSON-serialisable", "msg": str(e)[:200],
+                                                                      "finding": None}}
+            if setup.get("hash") == "good" and os.path.exists(first.get("target_path", "")):
+                import hashlib
+                with open(first["target_path"], "rb") as fh:
+                    real["base_hash"] = hashlib.sha256(fh.read()).hexdigest()
         _W["in_call"] = True
         res = _guarded(lambda: asyncio.run(cls().execute(**real)))
         _W["in_call"] = False
@@ -713,7 +889,7 @@ def job_tools(payload, progress):
         r = tool_one(tool, args, setup)
         n += 1
         hist[("tool_outcome", tool.replace("octave_", "") + ":" + r["outcome"])] += 1
-        hist[("tool_flags", _flag_key(tool, args))] += 1
+        hist[("tool_flags", _flag_key(tool, args) + (" <-second call after a first write" if (setup or {}).get("first") else ""))] += 1
         if r["failure"] is not None and (len(fails) < 60 or r["failure"].get("finding") is None):
             f = dict(r["failure"])
             f.update(tool=tool, args=args, setup=setup)
@@ -971,6 +1147,53 @@ def write_other_modes(existing):
     yield ("octave_validate", {"file_path": "$TMP/f.oct.md", "schema": "META"}, {"existing": existing})
 
 
+# two-step write sequences over one path (round-2 seed C20-b: W_STRUCT_001 sorts lost section markers with int() -- a
+# NAMED marker that disappears in the second write raises ValueError out of execute()).  First documents use numbered,
+# multi-digit, suffixed and named markers; second contents keep / drop / rename / reorder / flatten them.
+SEQ_FIRST = [
+    "===DOC===\nMETA:\n  TYPE::NOTE\n\u00a71::ONE\n  A::1\n\u00a72::TWO\n  B::2\n\u00a710::TEN\n  C::3\n===END===\n",
+    "===DOC===\nMETA:\n  TYPE::NOTE\n\u00a72::TWO\n  A::1\n\u00a72b::TWO_B\n  B::2\n===END===\n",
+    "===DOC===\nMETA:\n  TYPE::NOTE\n\u00a71::ONE\n  A::1\n\u00a7CONTEXT::LOCAL\n  B::2\n===END===\n",
+    "===DOC===\nMETA:\n  TYPE::NOTE\n\u00a7DEFINITIONS::\n  A::1\n\u00a7CONTEXT::\n  B::2\n===END===\n",
+    "===DOC===\n\u00a71::A\n  \u00a71b::INNER[note]\n    X::1\n\u00a7CTX_2::N[a,b]\n  Y::[a,b]\n\u00a7_x::Z\n  W::\n```\nraw\n```\n===END===\n",
+    "\u00a7A::ONE\n  K::1\n\u00a7B::TWO\n  K::2\n\u00a73::THREE\n  K::3\n",
+]
+SEQ_SECOND = [
+    "===DOC===\nMETA:\n  TYPE::NOTE\nA::1\nB::2\nC::3\n===END===\n",                                                  # all markers gone
+    "===DOC===\nMETA:\n  TYPE::NOTE\n\u00a71::ONE\n  A::1\n===END===\n",                                               # only \u00a71 kept
+    "===DOC===\nMETA:\n  TYPE::NOTE\n\u00a7CONTEXT::LOCAL\n  B::2\n\u00a71::ONE\n  A::1\n===END===\n",                 # reordered
+    "===DOC===\nMETA:\n  TYPE::NOTE\n\u00a7RENAMED::LOCAL\n  B::2\n\u00a77::SEVEN\n  A::1\n\u00a72c::X\n  C::1\n===END===\n",   # renamed
+    "K::v",                                                                                                           # no envelope, nothing kept
+    "===DOC===\nA::[unclosed\n===END===\n",                                                                          # unparseable second content
+]
+
+
+def write_sequences(every=1):
+    """first write (plain content mode) then a second call on the SAME path: content mode with every flag combination,
+    changes mode, normalize mode; the second call sees the file the first one left."""
+    i = 0
+    for first in SEQ_FIRST:
+        f_args = {"target_path": "$TMP/f.oct.md", "content": first}
+        for second, lenient, dry, policy, schema, mut in itertools.product(
+                SEQ_SECOND, (False, True), (False, True), ("error", "salvage"), (None, "META", "NO_SUCH_SCHEMA"), (None, MUTATIONS[1])):
+            i += 1
+            if i % every:
+                continue
+            a = {"target_path": "$TMP/f.oct.md", "content": second, "lenient": lenient, "corrections_only": dry, "parse_error_policy": policy}
+            if schema is not None:
+                a["schema"] = schema
+            if mut is not None:
+                a["mutations"] = mut
+            yield ("octave_write", a, {"first": f_args, "hash": "good" if (i // every) % 4 == 0 else None})
+        for ch in CHANGES:
+            for dry in (False, True):
+                yield ("octave_write", {"target_path": "$TMP/f.oct.md", "changes": ch, "corrections_only": dry}, {"first": f_args})
+        for lenient, dry, policy in itertools.product((False, True), (False, True), ("error", "salvage")):
+            yield ("octave_write", {"target_path": "$TMP/f.oct.md", "lenient": lenient, "corrections_only": dry, "parse_error_policy": policy},
+                   {"first": f_args})
+        yield ("octave_validate", {"file_path": "$TMP/f.oct.md", "schema": "META"}, {"existing": first})
+
+
 def fixed_calls():
     """Calls whose behaviour does not depend on a content argument (still part of 'every flag')."""
     for schema in SCHEMAS + ["latest", "frozen@1.0.0", ""]:
@@ -1030,6 +1253,11 @@ def random_calls(rng, content):
         if b():
             a3["schema"] = rng.choice(SCHEMAS)
         yield ("octave_write", a3, {"existing": content})
+    if rng.random() < 0.15:
+        # two-step sequence: `content` is written first, then other content replaces it on the same path
+        a4 = {"target_path": "$TMP/f.oct.md", "content": rng.choice(SEQ_SECOND + SEQ_FIRST), "lenient": b(), "corrections_only": b(),
+              "parse_error_policy": rng.choice(("error", "salvage"))}
+        yield ("octave_write", a4, {"first": {"target_path": "$TMP/f.oct.md", "content": content, "lenient": True, "parse_error_policy": "salvage"}})
 
 
 # --------------------------------------------------------------------------------------------------
@@ -1101,6 +1329,10 @@ def run_case(case):
         r = tool_one(case["tool"], case["args"], case.get("setup"))
         f = r["failure"]
         return (f is not None, (f or {}).get("what", r["outcome"]), (f or {}).get("finding"), f or r["outcome"])
+    if kind == "hang-probe":
+        res = probe_batch([("k", case["fn"], case["text"])], cap=float(case.get("cap_s", PROBE_CAP_S)))["k"]
+        bad = res[0] == "HANG" or res[0].startswith(("FOREIGN", "BAD-ENVELOPE", "CHILD"))
+        return (bad, "%s on the recorded probe text: %s after %.3f s" % (case["fn"], res[0], res[1]), None, list(res))
     if kind == "tool-regression":
         bad = regression_tool(case)
         return (bool(bad), bad[0]["what"] if bad else "regression passes", None, bad or "ok")
@@ -1311,6 +1543,25 @@ def _run(ctx):
     ]
     ctx.trusted_base.append("harness/props/c20.py worker farm (fork, pipes, setitimer/kill watchdog) and tempfile scratch dirs")
 
+    # ---------------- (0) hang probes in killable children ----------------
+    t0 = time.time()
+    probe_fails, probe_table = hang_probes(ctx)
+    vol["hang_probe_wall_s"] = round(time.time() - t0, 1)
+    ctx.extra["hang_probes"] = {"cap_s": PROBE_CAP_S, "tails": PROBE_TAILS, "shapes": sorted(PROBE_SHAPES), "functions": list(PROBE_FNS),
+                                "tools_probed_at_tails": list(PROBE_TOOL_LEVELS),
+                                "slowest_s": {sh: max((r[2] for rows in fns.values() for r in rows), default=0.0) for sh, fns in probe_table.items()},
+                                "hangs": [c["shape"] + "/" + c["fn"] + "/tail=%d" % c["tail"] for c, _ in probe_fails]}
+    for case, what in probe_fails:
+        ctx.hist("failure_class", "unattributed:hang-probe:" + case["fn"])
+        ctx.property_failure(case, what)
+    if probe_fails:
+        # every generator below would run into the same non-interruptible hang (60 s watchdog per input): stop here
+        ctx.extra["search_aborted"] = ("the reader hangs on %d probe shapes (first: %s); corpus, generators, tools and timing were NOT run"
+                                       % (len(probe_fails), probe_fails[0][0]["shape"]))
+        vol["total_wall_s"] = round(time.time() - t_start, 1)
+        ctx.extra["volumes"] = vol
+        return
+
     # ---------------- (a) corpus and finding witnesses (in-process, guarded) ----------------
     n_corpus = 0
     witness_raises = []          # failure records of replayed tool witnesses (flow model, reverse direction)
@@ -1409,6 +1660,9 @@ def _run(ctx):
 
     # ---------------- (d) tool calls ----------------
     calls = list(fixed_calls())
+    seq_calls = list(write_sequences(every=ctx.scale(3, 1)))
+    vol["two_step_write_sequences"] = len(seq_calls)
+    calls += seq_calls
     full_docs = CURATED[:] + texts["structured"][: ctx.scale(6, 60)] + [texts["mutation"][0][:3000]]
     for d in full_docs:
         calls += list(eject_full(d)) + list(compile_full(d)) + list(write_other_modes(d))
